@@ -92,6 +92,11 @@ func (p *Prog) unitsFor(prop string) []*ssa.Function {
 				}
 			}
 		}
+		for _, g := range fc.Ghosts {
+			if g.Check != nil && hasTag(g.Tags, prop) {
+				tagged = true
+			}
+		}
 		if tagged {
 			out = append(out, fn)
 		}
@@ -202,8 +207,16 @@ func cmdCheck(args []string) int {
 		work = next
 	}
 	sort.Slice(results, func(i, j int) bool { return results[i].Key < results[j].Key })
-	// lemmas tagged with the property
-	lemmaRes := p.checkLemmas(*prop, timeout, seed)
+	// lemmas tagged with the property, and every lemma a unit's VC used as an axiom
+	usedLemmas := map[string]bool{}
+	for _, r := range results {
+		for _, u := range r.Used {
+			if strings.HasPrefix(u, "lemma: ") {
+				usedLemmas[strings.TrimPrefix(u, "lemma: ")] = true
+			}
+		}
+	}
+	lemmaRes := p.checkLemmas(*prop, timeout, seed, usedLemmas)
 
 	violations := 0
 	var lines []string
@@ -460,40 +473,126 @@ func truncate(s string, n int) string {
 
 func round3(f float64) float64 { return float64(int(f*1000+0.5)) / 1000 }
 
-// checkLemmas: lemmas are proved from definitions only (no function body).
-func (p *Prog) checkLemmas(prop string, timeout, seed int) []*OblResult {
+// checkLemmas: lemmas are proved from definitions only (no function body); `induct j from LO` lemmas by induction:
+// base (j <= LO) and step (j > LO, hypothesis: the lemma for j-1 and the same values of the other variables).
+func (p *Prog) checkLemmas(prop string, timeout, seed int, extra map[string]bool) []*OblResult {
 	var out []*OblResult
 	for _, l := range p.lemmas {
-		if !hasTag(l.Tags, prop) || l.Axiom {
+		if l.Axiom || !(hasTag(l.Tags, prop) || extra[l.Name]) {
 			continue
 		}
 		vc := newVC(p, "lemma "+l.Name, nil)
+		vc.lemmaProving = l
 		n := vc.newNode("lemma", Env{})
 		fr := &Frame{fn: nil, regs: map[ssa.Value]string{}, lvs: map[ssa.Value]*LVal{}, entryEnv: Env{}, checkedNil: map[string]bool{}, allocFresh: map[string]bool{}}
 		sc := &SpecCtx{vc: vc, fr: fr, node: n, env: n.env, old: n.env, names: map[string]Val{}}
 		if pk, ok := p.pkgs[l.Pkg]; ok && pk.Types != nil {
 			sc.pkg = pk.Types
 		}
-		ob := vc.newObl(l.Name, "lemma", l.Tags, l.Text, 0)
-		ob.Pos = fmt.Sprintf("%s:%d", strings.TrimPrefix(l.File, "/repo/"), l.Line)
-		f, err := sc.formula(l.E)
-		if err != nil {
-			out = append(out, &OblResult{Ob: ob, Status: "contract-error", Detail: err.Error()})
+		pos := fmt.Sprintf("%s:%d", strings.TrimPrefix(l.File, "/repo/"), l.Line)
+		type part struct {
+			name string
+			f    string
+		}
+		var parts []part
+		var perr error
+		if l.Induct == "" {
+			f, err := sc.formula(l.E)
+			perr = err
+			parts = append(parts, part{l.Name, f})
+		} else {
+			q, ok := l.E.(*EQuant)
+			if !ok || !q.Forall {
+				perr = fmt.Errorf("induction lemma must be a forall")
+			} else {
+				var guards []string
+				var others []QVar
+				found := false
+				for _, qv := range q.Vars {
+					ty, srt, err := sc.resolveType(qv.Type)
+					if err != nil {
+						perr = err
+						break
+					}
+					sym := vc.fresh("lk$"+qv.Name, srt)
+					sc.names[qv.Name] = Val{T: sym, Ty: ty, Sort: srt}
+					if ty != nil {
+						if g := vc.srt.typeFact(sym, ty); g != "true" {
+							guards = append(guards, g)
+						}
+					}
+					if qv.Name == l.Induct {
+						found = true
+					} else {
+						others = append(others, qv)
+					}
+				}
+				if perr == nil && !found {
+					perr = fmt.Errorf("induction variable %s is not bound by the lemma", l.Induct)
+				}
+				if perr == nil {
+					j := sc.names[l.Induct]
+					from, err := sc.eval(l.From)
+					if err != nil {
+						perr = err
+					} else {
+						goal, err := sc.formula(q.Body)
+						if err != nil {
+							perr = err
+						} else {
+							c := *sc
+							c.names = map[string]Val{}
+							for k, v := range sc.names {
+								c.names[k] = v
+							}
+							c.names[l.Induct] = Val{T: app("-", j.T, "1"), Ty: j.Ty, Sort: j.Sort}
+							var hyp string
+							// induction hypothesis for the same values of the other variables (enough for structural
+							// recursion on one argument, and far easier on the solvers than a quantified hypothesis)
+							_ = others
+							hyp, err = c.formula(q.Body)
+							if err != nil {
+								perr = err
+							} else {
+								g := sAnd(guards...)
+								parts = append(parts, part{l.Name + "/base", sImp(sAnd(g, app("<=", j.T, sc.term(from))), goal)})
+								parts = append(parts, part{l.Name + "/step", sImp(sAnd(g, app(">", j.T, sc.term(from)), hyp), goal)})
+							}
+						}
+					}
+				}
+			}
+		}
+		if perr != nil {
+			ob := vc.newObl(l.Name, "lemma", l.Tags, l.Text, 0)
+			ob.Pos = pos
+			out = append(out, &OblResult{Ob: ob, Status: "contract-error", Detail: perr.Error()})
 			continue
 		}
-		vc.assertAt(n, f, ob)
-		q := vc.Query(map[*Obligation]bool{ob: true}, n, true, "")
-		r := runSolvers(q, timeout, seed, "lemma "+l.Name)
-		or := &OblResult{Ob: ob, Solver: r.Solver, Seconds: r.Seconds, Detail: r.Detail, SMTSize: len(q)}
-		switch r.Status {
-		case "unsat":
-			or.Status = "proved"
-		case "sat":
-			or.Status, or.Model = "refuted", r.Model
-		default:
-			or.Status = "undecided"
+		for _, pt := range parts {
+			ob := vc.newObl(pt.name, "lemma", l.Tags, l.Text, 0)
+			ob.Pos = pos
+			vc.assertAt(n, pt.f, ob)
 		}
-		out = append(out, or)
+		vc.instantiateLemmas()
+		for _, c := range n.cmds {
+			if !c.Assert {
+				continue
+			}
+			ob := c.Ob
+			q := vc.Query(map[*Obligation]bool{ob: true}, n, true, "")
+			r := runSolvers(q, timeout, seed, "lemma "+ob.Name)
+			or := &OblResult{Ob: ob, Solver: r.Solver, Seconds: r.Seconds, Detail: r.Detail, SMTSize: len(q)}
+			switch r.Status {
+			case "unsat":
+				or.Status = "proved"
+			case "sat":
+				or.Status, or.Model = "refuted", r.Model
+			default:
+				or.Status = "undecided"
+			}
+			out = append(out, or)
+		}
 	}
 	return out
 }
